@@ -10,6 +10,12 @@ J = "sqlgrep::execution::join::"
 V = "sqlgrep::model::Value"
 
 
+def E_owner(P, f):
+    while f.kind == "Closure" and f.parent_key in P.fns:
+        f = P.fns[f.parent_key]
+    return f
+
+
 def run(R):
     P = R.prog
     from . import rules_c16
@@ -43,6 +49,53 @@ def run(R):
             R.violation("C05.err", "JoinedTableData::execute|" + what,
                         "the result of %s is not propagated as an error%s: a missing join column / file / table would look like an empty join"
                         % (what, " (swallowed by %s)" % short(swallow[0].name) if swallow else ""), [c.loc()])
+    # ---- the joined table is loaded before, and independent of, the input lines: its errors cannot be hidden by an input without
+    #      admitted rows
+    R.rule("C05.eager", "the joined table is loaded up front: ExecutionEngine::execute_joined_table calls JoinedTableData::execute on every path "
+                        "on which the statement has a join clause, nothing else loads it, and the per-line entry ExecutionEngine::execute "
+                        "cannot reach the load - so a missing joined file / table / column is an error whatever the input contains")
+    ENGX = "sqlgrep::execution::execution_engine::ExecutionEngine::"
+    ejt = R.need_fn(ENGX + "execute_joined_table")
+    loads = [c for c in ejt.calls if short(c.name) == J + "JoinedTableData::execute"]
+    clos_loads = [(g, c) for g in PR.closures_of(P, ejt) for c in g.calls if short(c.name) == J + "JoinedTableData::execute"]
+    jcs = [c for c in ejt.calls if short(c.name).endswith("Statement::join_clause")]
+    if not loads and not clos_loads:
+        R.violation("C05.eager", "execute_joined_table|no-load", "execute_joined_table no longer loads the joined table (JoinedTableData::execute "
+                    "is not called): the load, and with it the report of a missing file / table / column, happens somewhere that depends on "
+                    "the input", [ejt.loc()])
+    elif loads and jcs:
+        g = PR.discr_guard(ejt, jcs[0], "Some")
+        if g is not None:
+            good, badb = PR.all_paths_hit(ejt, g[1], [c.bb for c in loads])
+            if good:
+                R.ok("C05.eager", "execute_joined_table|load", "join clause present => JoinedTableData::execute on every path", loads[0].loc())
+            else:
+                R.violation("C05.eager", "execute_joined_table|conditional-load", "with a join clause present execute_joined_table can return "
+                            "without loading the joined table", [ejt.loc(badb)])
+        else:
+            R.ok("C05.eager", "execute_joined_table|load", "JoinedTableData::execute called (join clause not matched by a switch)", loads[0].loc(),
+                 nontrivial=False)
+    else:
+        R.ok("C05.eager", "execute_joined_table|load", "JoinedTableData::execute called from the Some(join clause) closure", (loads or [clos_loads[0][1]])[0].loc(),
+             nontrivial=False)
+    per_line = R.need_fn(ENGX + "execute", raw=True)
+    jload = R.need_fn(J + "JoinedTableData::execute", raw=True)
+    pre = P.reachable([per_line])
+    if jload.key in pre:
+        chain = [jload.key]
+        while pre.get(chain[-1]) is not None and len(chain) < 12:
+            chain.append(pre[chain[-1]])
+        R.violation("C05.eager", "execute|reaches-load",
+                    "the per-line entry ExecutionEngine::execute reaches JoinedTableData::execute (%s): the joined table is loaded when a line "
+                    "arrives, so with an input that has no admitted line a missing joined file / table / column is never reported"
+                    % " <- ".join(P.fns[k].spath.split("::")[-1] for k in chain), [jload.loc()])
+    else:
+        R.ok("C05.eager", "execute|no-load", "JoinedTableData::execute is not reachable from the per-line entry", per_line.loc())
+    who = sorted(set(E_owner(P, h).spath for h in P.fns.values() if h.target == "lib" and
+                     any(jload.key in P.callee_keys(h, c) for c in h.calls)))
+    extra = [w for w in who if w != ENGX + "execute_joined_table" and w in PR.pinned_fns()]
+    if extra:
+        R.violation("C05.eager", "load|other-caller", "JoinedTableData::execute is also called from %s" % extra, [jload.loc()])
     # the queried side's join column is resolved (and its absence reported) on every path of the lookup: no fast path returns before it
     gj = R.need_fn(J + "JoinedTableData::get_joined_row")
     ix = [c for c in gj.calls if short(c.name).endswith("TableDefinition::index_for")]
